@@ -100,7 +100,9 @@ index f38589a..0f1bb83 100644
             delta::delta(ByteLines::new(BufReader::new(&input[0..])), writer, &config)
         {
             match error.kind() {
-                ErrorKind::BrokenPipe => std::process::exit(0),
+                // Return instead of exiting here, so that the caller drops the
+                // OutputType and thereby waits for the pager.
+                ErrorKind::BrokenPipe => return Err(error),
                 _ => eprintln!("{error}"),
             }
         };
